@@ -287,7 +287,7 @@ func getKey(r io.Reader) (int, []byte, error) {
 // masterkeyfingerprint and the remainder of which are the derivation path.
 func readBip32Derivation(path []byte) (uint32, []uint32, error) {
 
-	if len(path)%4 != 0 || len(path)/4-1 < 1 {
+	if len(path)%4 != 0 || len(path)/4-1 < 0 {
 		return 0, nil, psbt.ErrInvalidPsbtFormat
 	}
 
@@ -302,7 +302,7 @@ func readBip32Derivation(path []byte) (uint32, []uint32, error) {
 }
 
 func readTxOut(txout []byte) (*transaction.TxOutput, error) {
-	if len(txout) < 45 {
+	if len(txout) < 44 {
 		return nil, psbt.ErrInvalidPsbtFormat
 	}
 	d := bufferutil.NewDeserializer(bytes.NewBuffer(txout))
